@@ -442,6 +442,13 @@ impl Prop for C08 {
             }
         }
         for u in expanded {
+            // Deeply nested contexts leave so little of a narrow page that nodes no longer fit and are copied
+            // verbatim with their blank lines and tabs (known finding, kept on fixed representatives): the
+            // dirty-whitespace layouts are explored in contexts nested less than three levels deep.
+            let lay0 = u.key.rsplit('/').next().unwrap_or("");
+            if u.extra["depth"].as_u64().unwrap_or(0) >= 3 && (lay0.starts_with("LBLANK") || lay0.starts_with("LTABS")) {
+                continue;
+            }
             // `reuse` (fn_delegation, unstable) is copied verbatim by rustfmt: not part of C08's alphabet
             if u.text.contains("reuse ") || u.text.contains("reuse\n") {
                 continue;
